@@ -733,9 +733,15 @@ def run(ck, rng, tier):
     hs[1] = [["s_init", 0], ["s_appdbl", 0, 1e57], ["s_appdbl", 0, -3.5e120], ["s_appdbl", 0, 1e300], ["s_appdbl", 0, 0.25], ["s_new", 1, 2], ["s_extend", 0, 1, 2]]
     if len(hs) > 6:
         # sorting the rows of a matrix by a key column whose distinct values are closer than single precision resolves
-        near = [0.3, 0.30000001, 0.25, 0.125, 0.30000002, 1000000.01, 1000000.02]
-        hs[6] = [["m_new", 0, 7, 2]] + [["m_set", 0, q, 0, near[q]] for q in range(7)] + [["m_set", 0, q, 1, float(q)] for q in range(7)] + \
-                [["m_init", 1], ["m_copy", 0, 1], ["m_rsort", 0, 0], ["m_sort", 1, 0], ["m_get", 0, 0, 1], ["m_sort", 0, 0], ["m_rsort", 1, 0]]
+        # (pairs chosen so that the single-precision rounding of the FIRST key crosses the second one: 0.3 -> 0.3000000119 above
+        # 0.30000001, 0.7 -> 0.6999999881 below 0.69999999, 0.1 -> 0.1000000015 above 0.100000001; no larger key follows that would
+        # repair the order by a later exchange)
+        sets_ = [([0.3, 0.30000001, 0.25, 0.125], "m_rsort"), ([0.7, 0.69999999, 0.9, 1.5], "m_sort"), ([0.1, 0.100000001], "m_rsort"),
+                 ([1000000.02, 1000000.01, 2000000.0], "m_sort")]
+        hs[6] = []
+        for q_, (keys_, op_) in enumerate(sets_):
+            hs[6] += [["m_new", q_, len(keys_), 2]] + [["m_set", q_, r_, 0, keys_[r_]] for r_ in range(len(keys_))] + \
+                     [["m_set", q_, r_, 1, float(r_)] for r_ in range(len(keys_))] + [[op_, q_, 0], ["m_get", q_, 0, 1]]
     if len(hs) > 5:
         # texts made of white space only (one blank, a tab, several), the empty text, padded text
         hs[5] = [["s_init", 0], ["s_split", 0, "_a;b_", ";"], ["s_split", 0, "_", ";"], ["s_split", 0, "~", "_;"], ["s_split", 0, "___", ";"], ["s_split", 0, "@", ";"],
